@@ -72,6 +72,7 @@ def run_extraction(name, driver_text, wanted, extra_includes=(), defines=(), std
     ex = Extraction(name)
     ex.driver = drv
     ex.includes = incs
+    ex.defines = list(defines)
     if os.path.exists(cfile):
         d = json.load(open(cfile))
     else:
@@ -341,7 +342,7 @@ def differential(ex, outdir, seed, skip=()):
     res = {"tested": len(tested), "skipped": skipped, "cases": 0, "mismatches": [], "functions": tested}
     if not tested:
         return res
-    incs = ["-I" + i for i in ex.includes] + ["-I" + os.path.join(VERIF, "harness"), "-I" + outdir]
+    incs = ["-I" + i for i in ex.includes] + ["-I" + os.path.join(VERIF, "harness"), "-I" + outdir] + ["-D" + d for d in getattr(ex, "defines", [])]
     o1 = os.path.join(outdir, ex.name + ".diff.o")
     o2 = os.path.join(outdir, ex.name + ".shim.o")
     exe = os.path.join(outdir, ex.name + ".diff.bin")
